@@ -5,6 +5,7 @@ package main
 
 import (
 	"bytes"
+	"context"
 	"fmt"
 	"sort"
 	"testing/fstest"
@@ -78,6 +79,41 @@ func pageCase(name string, files map[string]string, comps map[string]string, pag
 	}
 	c := &Case{Name: "page: " + name, Op: true, Input: map[string]any{"op": "page", "files": fj, "comps": cj, "page": page, "data": toVal(data), "src": files}, Impl: impl,
 		Key: fmt.Sprintf("page|%s|%v", name, files[page]), Tags: append([]string{"stream:page"}, tags...)}
+	return c
+}
+
+// layoutPageCase: the `layoutpage` correspondence op — the same file set and data rendered by Load(page).Fill(data).Render (the whole layout
+// chain, named slots of the page handed to its layouts) and by the Lean layout loop driving the Lean evaluator and serialiser.
+func layoutPageCase(name string, files map[string]string, page string, data map[string]any, tags ...string) *Case {
+	c := pageCase(name, files, nil, page, data, tags...)
+	c.Input["op"] = "layoutpage"
+	c.Name = "layoutpage: " + name
+	c.Key = "layout" + c.Key
+	mfs := fstest.MapFS{}
+	for n, src := range files {
+		mfs[n] = &fstest.MapFile{Data: []byte(src), ModTime: time.Unix(1700000000, 0)}
+	}
+	done := make(chan map[string]any, 1)
+	go func() {
+		var buf bytes.Buffer
+		var res map[string]any
+		defer func() {
+			if e := recover(); e != nil {
+				res = map[string]any{"panic": true}
+			}
+			done <- res
+		}()
+		if err := vuego.NewFS(mfs).Load(page).Fill(data).Render(context.Background(), &buf); err != nil {
+			res = map[string]any{"err": true}
+		} else {
+			res = map[string]any{"out": buf.String()}
+		}
+	}()
+	select {
+	case c.Impl = <-done:
+	case <-time.After(10 * time.Second):
+		c.Impl = map[string]any{"hang": true}
+	}
 	return c
 }
 
